@@ -78,6 +78,11 @@ BENIGN = [
     ("{{#invoke:echo|dump|a|k=v}}", "{n1:1=1:a,s1:k=1:v}"),
     ("a{{#invoke:echo|pp|{{#invoke:echo|f|in}}}}b", "a<in>b"),
     ("{{#if:x|{{#invoke:echo|f|z}}}}", "<z>"),
+    # a benign module that catches an ordinary error, and one that simply
+    # computes for a while (well inside the limit)
+    ("{{#invoke:work|catch}}", "falsefalseH"),
+    ("{{#invoke:work|heavy}}", "1200003"),
+    ("{{#invoke:work|heavy}}{{#invoke:work|catch}}", "1200003falsefalseH"),
 ]
 
 
